@@ -297,8 +297,8 @@ inline void Goldilocks::spmv_avx512_4x12(__m512i &c, const __m512i &a0, const __
     mult_avx512(c2, a2, b2);
 
     __m512i c_;
-    add_avx512_b_c(c_, c0, c1);
-    add_avx512_b_c(c, c_, c2);
+    add_avx512(c_, c0, c1);
+    add_avx512(c, c_, c2);
 }
 
 // Sparse matrix-vector product (8x24 sparce matrix formed of three diagonal blocks os size 8x8)
@@ -354,9 +354,9 @@ inline void Goldilocks::mmult_avx512_4x12(__m512i &b, const __m512i &a0, const _
 
     // Add columns to obtain result
     __m512i sum0, sum1;
-    add_avx512_b_c(sum0, c0, c1);
-    add_avx512_b_c(sum1, c2, c3);
-    add_avx512_b_c(b, sum0, sum1);
+    add_avx512(sum0, c0, c1);
+    add_avx512(sum1, c2, c3);
+    add_avx512(b, sum0, sum1);
 }
 
 // Dense matrix-vector product
@@ -384,9 +384,9 @@ inline void Goldilocks::mmult_avx512_4x12_8(__m512i &b, const __m512i &a0, const
 
     // Add columns to obtain result
     __m512i sum0, sum1;
-    add_avx512_b_c(sum0, c0, c1);
-    add_avx512_b_c(sum1, c2, c3);
-    add_avx512_b_c(b, sum0, sum1);
+    add_avx512(sum0, c0, c1);
+    add_avx512(sum1, c2, c3);
+    add_avx512(b, sum0, sum1);
 }
 
 inline void Goldilocks::mmult_avx512(__m512i &a0, __m512i &a1, __m512i &a2, const Goldilocks::Element M[144])
